@@ -33,6 +33,7 @@ type c20Scenario struct {
 	execDelay  int    // ms, via strace execve delay injection
 	workerSlow int    // ms, worker start-up delay
 	kills      int    // external kill -9 of live workers during the run
+	killBurst  int    // how many workers each kill event takes down at once (default 1)
 	race       bool
 }
 
@@ -58,6 +59,8 @@ type c20Result struct {
 	err         string
 	killedPids  map[int]bool
 	slowVictims int
+	masterDied  string
+	timeline    string
 }
 
 func freePort() int {
@@ -258,6 +261,16 @@ func runC20Scenario(c *Ctx, bin string, sc c20Scenario, idx int) (res c20Result)
 					if ci == 0 && k == 1 {
 						kind = "hang"
 					}
+				case "hang2", "hang3":
+					// several requests outlive --timeout at (almost) the same moment
+					kind = []string{"instant", "busy"}[rng.Intn(2)]
+					nh := 2
+					if sc.mix == "hang3" {
+						nh = 3
+					}
+					if ci < nh && k == 0 {
+						kind = "hang"
+					}
 				}
 				tok := fmt.Sprintf("t%d-%d-%d", idx, ci, k)
 				body, _ := json.Marshal(map[string]string{"VarInput": "", "SourceCode": c20Program(kind, tok, rng)})
@@ -291,24 +304,55 @@ func runC20Scenario(c *Ctx, bin string, sc c20Scenario, idx int) (res c20Result)
 			for k := 0; k < sc.kills; k++ {
 				time.Sleep(time.Duration(150+rng.Intn(250)) * time.Millisecond)
 				_, _, pids := childrenOf(master)
-				if len(pids) > 0 {
-					p := pids[rng.Intn(len(pids))]
+				burst := sc.killBurst
+				if burst < 1 {
+					burst = 1
+				}
+				rng.Shuffle(len(pids), func(a, b int) { pids[a], pids[b] = pids[b], pids[a] })
+				for b := 0; b < burst && b < len(pids); b++ {
 					cmu.Lock()
-					res.killedPids[p] = true
+					res.killedPids[pids[b]] = true
 					cmu.Unlock()
-					syscall.Kill(p, syscall.SIGKILL)
+				}
+				for b := 0; b < burst && b < len(pids); b++ {
+					syscall.Kill(pids[b], syscall.SIGKILL)
 				}
 			}
 		}()
 	}
 	cdone := make(chan struct{})
 	go func() { cwg.Wait(); close(cdone) }()
-	select {
-	case <-cdone:
-	case <-time.After(4 * time.Minute):
-		res.err = "client watchdog fired (inconclusive)"
+	masterGone := false
+	watch := time.NewTicker(100 * time.Millisecond)
+	defer watch.Stop()
+	wdog := time.After(4 * time.Minute)
+waitClients:
+	for {
+		select {
+		case <-cdone:
+			break waitClients
+		case <-watch.C:
+			if _, err := os.Stat(fmt.Sprintf("/proc/%d", master)); err != nil {
+				masterGone = true
+				break waitClients
+			}
+			if st, err := os.ReadFile(fmt.Sprintf("/proc/%d/stat", master)); err == nil {
+				if i := strings.LastIndex(string(st), ")"); i >= 0 && i+2 < len(st) && (st[i+2] == 'Z' || st[i+2] == 'X') {
+					masterGone = true
+					break waitClients
+				}
+			}
+		case <-wdog:
+			res.err = "client watchdog fired (inconclusive)"
+			close(stop)
+			swg.Wait()
+			return
+		}
+	}
+	if masterGone {
 		close(stop)
 		swg.Wait()
+		res.masterDied = "the master process exited while requests were outstanding: " + clip(stderr.String(), 300)
 		return
 	}
 	// quiescent point: no request outstanding, live set unchanged for 1.5 s
@@ -342,6 +386,21 @@ func runC20Scenario(c *Ctx, bin string, sc c20Scenario, idx int) (res c20Result)
 			}
 		}
 		fmt.Printf("  [%s] pipes=%v master=%d\n", sc.name, pipes, master)
+	}
+	{
+		last := ""
+		var tl []string
+		for _, s := range samples {
+			cur := fmt.Sprintf("w=%d pre=%d", s.workers, s.preexec)
+			if cur != last {
+				tl = append(tl, fmt.Sprintf("t=%dms %s", (s.t-samples[0].t)/1e6, cur))
+				last = cur
+			}
+		}
+		if len(tl) > 60 {
+			tl = tl[:60]
+		}
+		res.timeline = strings.Join(tl, "; ")
 	}
 	// ---------------- judge
 	res.samples = len(samples)
@@ -496,7 +555,7 @@ func readPid(path string) int {
 }
 
 func checkC20(c *Ctx) {
-	c.rule = "the real ZnPMServer master and real worker processes (pmharness: pkg/server + playground handler, hook H1) are started per scenario; scenarios = configurations 1 <= init <= max <= 4 x client concurrency 1..16 x request mix (instant, busy loops, a request that outlives --timeout) x scripted kill -9 of live workers x execve delay injected with strace (0/5/20/60/150 ms, widens the window between 'spawned' and 'registered') x slow worker start-up. Monitors: /proc children of the master every 2 ms (live workers <= max at every sample; init <= live <= max at a quiescent point = no request outstanding and live set unchanged for 1.5 s); offline checker over the handler log written at the worker boundary (per-worker request intervals never overlap, every token handled once, response == own token, timed-out worker gone); race-detector reports of a -race build are recorded for information only. distinct_nontrivial = distinct (scenario parameters) + distinct 4-grams over {worker_start, req_start, req_end} events seen"
+	c.rule = "the real ZnPMServer master and real worker processes (pmharness: pkg/server + playground handler, hook H1) are started per scenario; scenarios = configurations 1 <= init <= max <= 4 x client concurrency 1..16 x request mix (instant, busy loops, one / two / three requests that outlive --timeout at the same moment) x scripted kill -9 of one or several live workers at once x execve delay injected with strace (0/5/20/60/150 ms, widens the window between 'spawned' and 'registered') x slow worker start-up. Monitors: /proc children of the master every 2 ms (live workers <= max at every sample; init <= live <= max at a quiescent point = no request outstanding and live set unchanged for 1.5 s); offline checker over the handler log written at the worker boundary (per-worker request intervals never overlap, every token handled once, response == own token, timed-out worker gone); race-detector reports of a -race build are recorded for information only. distinct_nontrivial = distinct (scenario parameters) + distinct 4-grams over {worker_start, req_start, req_end} events seen"
 	c.assumptions = []string{"a child that has been forked but has not exec'd yet is reported separately and not counted as a live worker", "strace execve delay injection only delays, it does not change behaviour", "not reaching a quiescent point within 60 s is inconclusive, not a violation"}
 	if _, err := exec.LookPath("strace"); err != nil {
 		c.Inconclusive("strace not found: " + err.Error())
@@ -510,7 +569,7 @@ func checkC20(c *Ctx) {
 	var binRace string
 	var scenarios []c20Scenario
 	add := func(s c20Scenario) {
-		s.name = fmt.Sprintf("init%d-max%d-c%dx%d-%s-delay%d-slow%d-kill%d-race%v", s.initP, s.maxP, s.clients, s.requests, s.mix, s.execDelay, s.workerSlow, s.kills, s.race)
+		s.name = fmt.Sprintf("init%d-max%d-c%dx%d-%s-delay%d-slow%d-kill%dx%d-race%v", s.initP, s.maxP, s.clients, s.requests, s.mix, s.execDelay, s.workerSlow, s.kills, s.killBurst, s.race)
 		scenarios = append(scenarios, s)
 	}
 	if c.Quick() {
@@ -527,6 +586,11 @@ func checkC20(c *Ctx) {
 		add(c20Scenario{initP: 3, maxP: 3, timeout: 2, clients: 6, requests: 8, mix: "mixed"})
 		add(c20Scenario{initP: 1, maxP: 1, timeout: 2, clients: 4, requests: 6, mix: "busy"})
 		add(c20Scenario{initP: 2, maxP: 4, timeout: 2, clients: 6, requests: 6, mix: "hang"})
+		add(c20Scenario{initP: 3, maxP: 3, timeout: 2, clients: 5, requests: 4, mix: "hang2"})
+		add(c20Scenario{initP: 2, maxP: 4, timeout: 2, clients: 6, requests: 4, mix: "hang2"})
+		add(c20Scenario{initP: 4, maxP: 4, timeout: 2, clients: 6, requests: 4, mix: "hang3"})
+		add(c20Scenario{initP: 3, maxP: 3, timeout: 2, clients: 6, requests: 8, mix: "busy", kills: 2, killBurst: 2})
+		add(c20Scenario{initP: 2, maxP: 4, timeout: 2, clients: 8, requests: 8, mix: "mixed", kills: 2, killBurst: 2, execDelay: 40})
 		add(c20Scenario{initP: 2, maxP: 4, timeout: 2, clients: 8, requests: 10, mix: "mixed", kills: 3})
 		add(c20Scenario{initP: 2, maxP: 3, timeout: 2, clients: 8, requests: 8, mix: "busy", workerSlow: 80})
 		add(c20Scenario{initP: 1, maxP: 3, timeout: 2, clients: 8, requests: 8, mix: "mixed", race: true})
@@ -540,6 +604,10 @@ func checkC20(c *Ctx) {
 				}
 				add(c20Scenario{initP: initP, maxP: maxP, timeout: 2, clients: 6, requests: 6, mix: "hang", execDelay: 20})
 				add(c20Scenario{initP: initP, maxP: maxP, timeout: 2, clients: 8, requests: 10, mix: "mixed", kills: 4, execDelay: 20})
+				add(c20Scenario{initP: initP, maxP: maxP, timeout: 2, clients: 6, requests: 4, mix: "hang2"})
+				add(c20Scenario{initP: initP, maxP: maxP, timeout: 2, clients: 6, requests: 4, mix: "hang3", execDelay: 20})
+				add(c20Scenario{initP: initP, maxP: maxP, timeout: 2, clients: 8, requests: 8, mix: "busy", kills: 3, killBurst: 2})
+				add(c20Scenario{initP: initP, maxP: maxP, timeout: 2, clients: 8, requests: 8, mix: "mixed", kills: 2, killBurst: 3, execDelay: 40})
 				add(c20Scenario{initP: initP, maxP: maxP, timeout: 2, clients: 8, requests: 8, mix: "busy", workerSlow: 120, execDelay: 5})
 				add(c20Scenario{initP: initP, maxP: maxP, timeout: 2, clients: 8, requests: 8, mix: "mixed", race: true})
 			}
@@ -607,6 +675,10 @@ func checkC20(c *Ctx) {
 			c.Inconclusive(sc.name + ": " + r.err)
 			continue
 		}
+		if r.masterDied != "" {
+			c.Violation("pool:master-died:"+sc.name, sc.name+": "+r.masterDied, rp)
+			continue
+		}
 		c.Count("evaluations", int64(r.requests))
 		c.Count("process_table_samples", int64(r.samples))
 		c.Count("requests_answered_with_own_token", int64(r.ok))
@@ -622,7 +694,7 @@ func checkC20(c *Ctx) {
 			totalHits += r.windowHits
 		}
 		if r.maxLive > sc.maxP {
-			c.Violation("pool:overshoot:"+sc.name, fmt.Sprintf("%s: %s while --max-procs is %d (sampled from /proc)", sc.name, r.maxLiveAt, sc.maxP), rp)
+			c.Violation("pool:overshoot:"+sc.name, fmt.Sprintf("%s: %s while --max-procs is %d (sampled from /proc)\nprocess-table timeline: %s", sc.name, r.maxLiveAt, sc.maxP, r.timeline), rp)
 		}
 		if !r.quiescent {
 			c.Inconclusive(sc.name + ": no quiescent point reached within 60 s")
